@@ -37,8 +37,17 @@ RECURSIVE Seqs(_)
 Seqs(n) == IF n = 0 THEN {<<>>} ELSE {<<Node(c, "", <<>>)>> \o s : c \in NameClasses, s \in Seqs(n - 1)}
 NameTrees == UNION {{Node("QWidget", "", s) : s \in Seqs(n)} : n \in 1..4}
              \cup {Node("QWidget", "", <<Node("QVBoxLayout", "", s)>>) : s \in UNION {Seqs(n) \cap {q \in Seqs(n) : \A j \in 1..Len(q) : q[j].cls # "QAction"} : n \in 2..3}}
+\* seeded random trees of SIZE-2..SIZE nodes, built top-down (the sets above cannot be enumerated beyond 5 nodes)
+RECURSIVE RTree(_, _), RForest(_, _)
+RTreeOf(c, n, kp) == IF c \in Leafy THEN Mk(c, <<>>) ELSE Mk(c, RForest(n - 1, Kind(c)))
+RTree(n, kp) == RTreeOf(RandomElement(IF n = 1 THEN Under(kp) ELSE Under(kp) \ Leafy), n, kp)
+RForestOf(k, n, kp) == <<RTree(k, kp)>> \o RForest(n - k, kp)
+RForest(n, kp) == IF n = 0 THEN <<>> ELSE RForestOf(RandomElement(1..(IF n > 3 THEN 3 ELSE n)), n, kp)
+RRootOf(c, n) == Node(c, "", RForest(n - 1, Kind(c)))
+RRoot(j) == RRootOf(RandomElement({"QWidget", "QTabWidget", "QMenu"}), Size - (j % 3))
+RandomTrees == {RRoot(j) : j \in 1..Limit}
 VARIABLE t
-Init == t \in (IF IOEnv.WHICH = "names" THEN Sample(NameTrees) ELSE Sample(Good) \cup Bad)
+Init == t \in (IF IOEnv.WHICH = "names" THEN Sample(NameTrees) ELSE IF IOEnv.WHICH = "random" THEN RandomTrees ELSE Sample(Good) \cup Bad)
 Next == UNCHANGED t
 Emit == PrintT(<<"TREE", ToJson([tree |-> t, accepted |-> Accepted(t)])>>)
 =============================================================================
